@@ -16,6 +16,8 @@ const BASE_NS: u64 = 1_000_000_000_000; // far from zero so that `Instant - Dura
 static VIRT_NS: AtomicU64 = AtomicU64::new(BASE_NS);
 static VIRT_ON: AtomicBool = AtomicBool::new(true);
 static CASE_START_NS: AtomicU64 = AtomicU64::new(BASE_NS);
+/// wall time that passed inside synchronous code since the case began (not part of the op clock)
+static SKEW_NS: AtomicU64 = AtomicU64::new(0);
 
 /// std's `Instant::now()` reaches the monotonic clock only through this libc symbol; the
 /// definition in the executable takes precedence over libc's at link time.
@@ -32,11 +34,16 @@ pub unsafe extern "C" fn clock_gettime(clk: libc::clockid_t, ts: *mut libc::time
     libc::syscall(libc::SYS_clock_gettime, clk, ts) as libc::c_int
 }
 
+/// Move only the (virtual) std clock forward: wall time passing inside synchronous code, e.g. a slow listener.
+pub fn bump_std_clock(ms: u64) {
+    VIRT_NS.fetch_add(ms * 1_000_000, Ordering::SeqCst);
+    SKEW_NS.fetch_add(ms * 1_000_000, Ordering::SeqCst);
+}
 pub fn virt_now_ns() -> u64 {
     VIRT_NS.load(Ordering::SeqCst)
 }
 pub fn now_ms() -> u64 {
-    (VIRT_NS.load(Ordering::SeqCst) - CASE_START_NS.load(Ordering::SeqCst)) / 1_000_000
+    (VIRT_NS.load(Ordering::SeqCst) - CASE_START_NS.load(Ordering::SeqCst) - SKEW_NS.load(Ordering::SeqCst)) / 1_000_000
 }
 pub fn now_ns_in_case() -> u64 {
     VIRT_NS.load(Ordering::SeqCst) - CASE_START_NS.load(Ordering::SeqCst)
@@ -124,6 +131,7 @@ pub fn begin_case() {
     OBS.lock().unwrap_or_else(|e| e.into_inner()).clear();
     ANN.lock().unwrap_or_else(|e| e.into_inner()).clear();
     SERIAL.store(0, Ordering::SeqCst);
+    SKEW_NS.store(0, Ordering::SeqCst);
     CASE_START_NS.store(VIRT_NS.load(Ordering::SeqCst), Ordering::SeqCst);
     take_log();
 }
@@ -400,6 +408,32 @@ impl Wake for Flag {
 }
 
 pub type CallFut = Pin<Box<dyn Future<Output = String>>>;
+
+/// The middleware's call future, held (not dropped) after it has resolved: it lives until the caller's
+/// slot is dropped — at once by default, or at a later `release` op when the caller keeps finished futures.
+pub struct Held<F: Future> {
+    fut: Pin<Box<F>>,
+    render: fn(F::Output) -> String,
+    done: bool,
+}
+impl<F: Future> Future for Held<F> {
+    type Output = String;
+    fn poll(mut self: Pin<&mut Self>, cx: &mut Context<'_>) -> Poll<String> {
+        if self.done {
+            panic!("call future polled after completion");
+        }
+        match self.fut.as_mut().poll(cx) {
+            Poll::Ready(v) => {
+                self.done = true;
+                Poll::Ready((self.render)(v))
+            }
+            Poll::Pending => Poll::Pending,
+        }
+    }
+}
+pub fn held<F: Future + 'static>(fut: F, render: fn(F::Output) -> String) -> CallFut {
+    Box::pin(Held { fut: Box::pin(fut), render, done: false })
+}
 
 struct Slot {
     fut: CallFut,
